@@ -14,6 +14,7 @@ import (
 
 	"pgregory.net/rapid"
 
+	"tunnox-core/internal/client"
 	"tunnox-core/internal/client/mapping"
 	"tunnox-core/internal/cloud/models"
 	"tunnox-core/internal/config"
@@ -113,6 +114,9 @@ type fakeClient struct {
 	quotaErr            bool                                    // GetUserQuota fails: documented as "do not block the connection"
 	onDial              func(i int, tunnelID, mappingID string) // set before the first connection is offered
 	dialSeq             atomic.Int32
+	// real != nil: GetUserQuota / CheckMappingQuota are the REAL TunnoxClient's (quota cache + Management API
+	// client); only the network-facing parts stay doubles
+	real *client.TunnoxClient
 }
 
 func (f *fakeClient) DialTunnel(tunnelID, mappingID, secretKey string) (net.Conn, stream.PackageStreamer, error) {
@@ -145,9 +149,17 @@ func (f *fakeClient) ReturnTunnelToPool(mapping.PooledTunnelConnInterface)  {}
 func (f *fakeClient) CloseTunnelFromPool(mapping.PooledTunnelConnInterface) {}
 func (f *fakeClient) IsTunnelPoolEnabled() bool                             { return false }
 func (f *fakeClient) GetContext() context.Context                           { return f.ctx }
-func (f *fakeClient) CheckMappingQuota(string) error                        { return nil }
-func (f *fakeClient) TrackTraffic(string, int64, int64) error               { return nil }
+func (f *fakeClient) CheckMappingQuota(id string) error {
+	if f.real != nil {
+		return f.real.CheckMappingQuota(id)
+	}
+	return nil
+}
+func (f *fakeClient) TrackTraffic(string, int64, int64) error { return nil }
 func (f *fakeClient) GetUserQuota() (*models.UserQuota, error) {
+	if f.real != nil {
+		return f.real.GetUserQuota()
+	}
 	if n := f.rendezvous.Load(); n > 0 {
 		f.arrived.Add(1)
 		deadline := time.Now().Add(50 * time.Millisecond)
